@@ -286,21 +286,24 @@ Definition rc_scan_step (s : list N) : option rc_event * N * rc_where * bool :=
   let '(_, k, w) := rc_skip_eol s1 in
   (ev, t_end t1 + k, w, touched).
 
-Fixpoint rc_scan_loop (fuel : nat) (s : list N) (base : N) (acc : list rc_event) : list rc_event :=
-  match fuel with
-  | O => rev' acc
-  | S f =>
-      match s with
-      | [] => rev' acc
-      | _ =>
-          let '(ev, k, _, _) := rc_scan_step s in
-          rc_scan_loop f (rc_drop k s) (base + k)
-                       (match ev with Some e => rc_shift base e :: acc | None => acc end)
-      end
+(* the while loop: the position advances by k after every iteration. Written as a walk over the input with a
+   count of bytes still to be skipped, so that no fuel is needed (an iteration always advances: k >= 1; a k of 0,
+   which cannot happen, would be treated as 1). base = absolute offset of the head of s. *)
+Fixpoint rc_scan_walk (s : list N) (skip : N) (base : N) (acc : list rc_event) : list rc_event :=
+  match s with
+  | [] => rev' acc
+  | _ :: s' =>
+      if 0 <? skip then rc_scan_walk s' (skip - 1) (base + 1) acc
+      else
+        match rc_scan_step s with
+        | (ev, k, _, _) =>
+            rc_scan_walk s' (k - 1) (base + 1)
+                         (match ev with Some e => rc_shift base e :: acc | None => acc end)
+        end
   end.
 
 (* every event of the scan over the whole file, in file order *)
-Definition rc_scan_events (file : list N) : list rc_event := rc_scan_loop (S (length file)) file 0 [].
+Definition rc_scan_events (file : list N) : list rc_event := rc_scan_walk file 0 0 [].
 
 (* ------------------------------------------------------------------ xref table (std::map<QPDFObjGen, entry>) *)
 Definition rc_og := (Z * Z)%type.
